@@ -6,6 +6,39 @@ HOSTILE = [b"\xff", b"\xc0\xaf", b"\x00", b"a.b", b"\\", b"\\.", b"\xed\xa0\x80"
            b'q="', b'k=""', b'"', b'="', b'k="v"', b"k='", b"a\\;b=c", b"p=C:\\;m=rw", b"k=\\", b"\\=", b"k=%", b"k=\x00"]
 
 
+def split_char_txts():
+    """lists of TXT character-strings whose concatenation is (mostly) well-formed text although single strings are not: one
+    multi-byte character spread over two, three or four strings, with or without an empty string in between, behind a first
+    string of any length up to the 255 octets a character-string can hold; and the same with the character never completed"""
+    out = []
+    for ch in ("é", "€", "😀"):
+        b = ch.encode()
+        n = len(b)
+        cuts = []
+        for mask in range(1, 1 << (n - 1)):
+            pieces, cur = [], bytearray([b[0]])
+            for i in range(1, n):
+                if mask >> (i - 1) & 1:
+                    pieces.append(bytes(cur))
+                    cur = bytearray()
+                cur.append(b[i])
+            pieces.append(bytes(cur))
+            cuts.append(pieces)
+        for pieces in cuts:
+            for L in (len(pieces[0]), 7, 254, 255):
+                first = b"a" * (L - len(pieces[0])) + pieces[0]
+                tail = pieces[1:-1] + [pieces[-1] + b";k=v"]
+                out.append([first] + tail)
+                out.append([first, b""] + tail)
+                out.append([first] + tail[:-1] + [b"", tail[-1]])
+                out.append([first] + pieces[1:-1])                      # never completed
+                out.append([first] + pieces[1:-1] + [b""])
+    return out
+
+
+SPLITS = split_char_txts()
+
+
 def hostile_packet(rng, n_rr=4):
     def label():
         return rng.choice(HOSTILE + [rng.bytes(1 + rng.below(5))])[:63] or b"z"
@@ -47,6 +80,8 @@ def hostile_packet(rng, n_rr=4):
             whole = rng.choice(["café=1;flag", "k=€uro", "😀=x", "a" * 253 + "é"]).encode()
             cut = rng.choice([i for i in range(1, len(whole)) if whole[i] & 0xC0 == 0x80])
             rd = ("T", "TXT", [("L", [(0, whole[:cut][-255:]), (0, whole[cut:])])])
+        elif t == "TXT" and rng.chance(1, 5):
+            rd = ("T", "TXT", [("L", [(0, x) for x in rng.choice(SPLITS)])])
         elif t == "TXT":
             rd = ("T", "TXT", [("L", [(0, cstr()) for _ in range(1 + rng.below(4))])])
         elif t == "HINFO":
